@@ -459,7 +459,9 @@ func checkMain(args []string) {
 			// confirmed iff the run does not finish in a fresh process either; not minimised (every candidate would cost the limit)
 			_, err := replayFresh1(self, tmp, stallLimit)
 			if err == nil || !strings.Contains(err.Error(), "replay watchdog expired") {
-				die2("a worker made no progress on run %d for %v, but the run replays to its end in a fresh process (overloaded machine?): %v (see %s)", fv.Idx, stallLimit, err, tmp)
+				// not confirmed: harness trouble (reported as such unless something else was found)
+				werrs = append(werrs, fmt.Sprintf("a worker made no progress on run %d for %v, but the run did not hang again in a fresh process (overloaded machine?): %v (see %s)", fv.Idx, stallLimit, err, tmp))
+				continue
 			}
 			final := filepath.Join(*violDir, fmt.Sprintf("%s-%d-%d.json", p.ID, seed, si))
 			v := fv.Violation
